@@ -16,6 +16,7 @@ import (
 	"io"
 	"math/rand"
 	"net/http/httptest"
+	"sync"
 	"time"
 
 	"github.com/cep21/circuit/v4"
@@ -254,20 +255,166 @@ func (cfgFamily) Exec(c *hc.Case) {
 		// remember which configuration each answer was given under
 		c.Outs = append(c.Outs, fmt.Sprintf("(%s, %s, %s)", cur.coqCfg(), cfgQueryCoq(o), out))
 	}
+	callbackProbe(c, tags)
 	for t := range tags {
 		c.Tags = append(c.Tags, t)
 	}
 }
 
+// callbackProbe: a metrics collector whose callbacks read the diagnostics (Config, IsOpen, Var) while the control
+// plane reconfigures the circuit.  Neither blocks the other: every callback kind is provoked once, inside it a
+// SetConfigThreadSafe is started on another goroutine and, once that has finished or has had 25 ms to queue up, the
+// diagnostics are read.
+type reconfCollector struct {
+	cir   *circuit.Circuit
+	cfg   circuit.Config
+	mu    sync.Mutex
+	seen  map[string]bool
+	stuck []string
+}
+
+func (r *reconfCollector) poke(kind string) {
+	r.mu.Lock()
+	first := !r.seen[kind]
+	r.seen[kind] = true
+	r.mu.Unlock()
+	if !first {
+		return
+	}
+	set := make(chan struct{})
+	go func() {
+		defer close(set)
+		r.cir.SetConfigThreadSafe(r.cfg)
+	}()
+	select {
+	case <-set:
+	case <-time.After(25 * time.Millisecond):
+	}
+	read := make(chan struct{})
+	go func() {
+		defer close(read)
+		_ = r.cir.Config()
+		_ = r.cir.IsOpen()
+		_ = r.cir.Var().String()
+	}()
+	select {
+	case <-read:
+	case <-time.After(2 * time.Second):
+		r.mu.Lock()
+		r.stuck = append(r.stuck, kind+": Config/IsOpen/Var still blocked after 2 s")
+		r.mu.Unlock()
+		return
+	}
+	select {
+	case <-set:
+	case <-time.After(2 * time.Second):
+		r.mu.Lock()
+		r.stuck = append(r.stuck, kind+": SetConfigThreadSafe still blocked after 2 s although the diagnostics have returned")
+		r.mu.Unlock()
+	}
+}
+func (r *reconfCollector) Success(context.Context, time.Time, time.Duration)    { r.poke("Success") }
+func (r *reconfCollector) ErrFailure(context.Context, time.Time, time.Duration) { r.poke("ErrFailure") }
+func (r *reconfCollector) ErrTimeout(context.Context, time.Time, time.Duration) { r.poke("ErrTimeout") }
+func (r *reconfCollector) ErrBadRequest(context.Context, time.Time, time.Duration) {
+	r.poke("ErrBadRequest")
+}
+func (r *reconfCollector) ErrInterrupt(context.Context, time.Time, time.Duration) {
+	r.poke("ErrInterrupt")
+}
+func (r *reconfCollector) ErrConcurrencyLimitReject(context.Context, time.Time) {
+	r.poke("ErrConcurrencyLimitReject")
+}
+func (r *reconfCollector) ErrShortCircuit(context.Context, time.Time) { r.poke("ErrShortCircuit") }
+
+type reconfFallback struct{ r *reconfCollector }
+
+func (f reconfFallback) Success(context.Context, time.Time, time.Duration) {
+	f.r.poke("fallback Success")
+}
+func (f reconfFallback) ErrFailure(context.Context, time.Time, time.Duration) {
+	f.r.poke("fallback ErrFailure")
+}
+func (f reconfFallback) ErrConcurrencyLimitReject(context.Context, time.Time) {
+	f.r.poke("fallback Reject")
+}
+
+type reconfCircuit struct{ r *reconfCollector }
+
+func (f reconfCircuit) Opened(context.Context, time.Time) { f.r.poke("Opened") }
+func (f reconfCircuit) Closed(context.Context, time.Time) { f.r.poke("Closed") }
+
+func callbackProbe(c *hc.Case, tags map[string]bool) {
+	r := &reconfCollector{seen: map[string]bool{}}
+	var cfg circuit.Config
+	cfg.Execution.Timeout = 10 * time.Millisecond
+	cfg.Metrics.Run = []circuit.RunMetrics{r}
+	cfg.Metrics.Fallback = []circuit.FallbackMetrics{reconfFallback{r}}
+	cfg.Metrics.Circuit = []circuit.Metrics{reconfCircuit{r}}
+	cir := circuit.NewCircuitFromConfig("cfg-callbacks", cfg)
+	r.cir = cir
+	r.cfg = cir.Config()
+	r.cfg.Execution.Timeout = 11 * time.Millisecond
+	bg := context.Background()
+	errRun := errors.New("run")
+	finished := make(chan struct{})
+	go func() {
+		defer close(finished)
+		_ = cir.Run(bg, func(context.Context) error { return nil })
+		_ = cir.Execute(bg, func(context.Context) error { return errRun }, func(context.Context, error) error { return nil })
+		_ = cir.Execute(bg, func(context.Context) error { return circuit.SimpleBadRequest{Err: errRun} }, func(context.Context, error) error { return errRun })
+		_ = cir.Execute(bg, func(ctx context.Context) error { <-ctx.Done(); time.Sleep(time.Millisecond); return ctx.Err() }, func(context.Context, error) error { return errRun })
+		ctx, cancel := context.WithCancel(bg)
+		_ = cir.Run(ctx, func(context.Context) error { cancel(); return errRun })
+		cancel()
+		cir.OpenCircuit(bg)
+		_ = cir.Run(bg, func(context.Context) error { return nil })
+		cir.CloseCircuit(bg)
+		lim := cir.Config()
+		lim.Execution.MaxConcurrentRequests = 0
+		lim.Fallback.MaxConcurrentRequests = 0
+		r.cfg = lim
+		cir.SetConfigThreadSafe(lim)
+		_ = cir.Execute(bg, func(context.Context) error { return nil }, func(context.Context, error) error { return nil })
+	}()
+	select {
+	case <-finished:
+	case <-time.After(40 * time.Second):
+		r.mu.Lock()
+		r.stuck = append(r.stuck, "the calls themselves had not finished after 40 s")
+		r.mu.Unlock()
+	}
+	r.mu.Lock()
+	defer r.mu.Unlock()
+	for _, s := range r.stuck {
+		c.Viol = append(c.Viol, hc.Violation{Clause: "C11: SetConfigThreadSafe and every read-side diagnostic run concurrently with traffic of every outcome kind without deadlock", Detail: "diagnostics read from inside the metrics callback " + s + " while a SetConfigThreadSafe was under way", AtOp: len(c.Ops)})
+	}
+	for k := range r.seen {
+		tags["callback-reconf:"+k] = true
+	}
+}
+
 type kindRec struct{ kinds *[]string }
 
-func (r kindRec) Success(context.Context, time.Time, time.Duration)       { *r.kinds = append(*r.kinds, "KSuccess") }
-func (r kindRec) ErrFailure(context.Context, time.Time, time.Duration)    { *r.kinds = append(*r.kinds, "KFailure") }
-func (r kindRec) ErrTimeout(context.Context, time.Time, time.Duration)    { *r.kinds = append(*r.kinds, "KTimeout") }
-func (r kindRec) ErrBadRequest(context.Context, time.Time, time.Duration) { *r.kinds = append(*r.kinds, "KBadRequest") }
-func (r kindRec) ErrInterrupt(context.Context, time.Time, time.Duration)  { *r.kinds = append(*r.kinds, "KInterrupt") }
-func (r kindRec) ErrConcurrencyLimitReject(context.Context, time.Time)    { *r.kinds = append(*r.kinds, "KReject") }
-func (r kindRec) ErrShortCircuit(context.Context, time.Time)              { *r.kinds = append(*r.kinds, "KShort") }
+func (r kindRec) Success(context.Context, time.Time, time.Duration) {
+	*r.kinds = append(*r.kinds, "KSuccess")
+}
+func (r kindRec) ErrFailure(context.Context, time.Time, time.Duration) {
+	*r.kinds = append(*r.kinds, "KFailure")
+}
+func (r kindRec) ErrTimeout(context.Context, time.Time, time.Duration) {
+	*r.kinds = append(*r.kinds, "KTimeout")
+}
+func (r kindRec) ErrBadRequest(context.Context, time.Time, time.Duration) {
+	*r.kinds = append(*r.kinds, "KBadRequest")
+}
+func (r kindRec) ErrInterrupt(context.Context, time.Time, time.Duration) {
+	*r.kinds = append(*r.kinds, "KInterrupt")
+}
+func (r kindRec) ErrConcurrencyLimitReject(context.Context, time.Time) {
+	*r.kinds = append(*r.kinds, "KReject")
+}
+func (r kindRec) ErrShortCircuit(context.Context, time.Time) { *r.kinds = append(*r.kinds, "KShort") }
 
 func cfgQueryCoq(o cfgOp) string {
 	if o.K != "q" {
